@@ -48,6 +48,13 @@ def gen_job_plan(rng, nmax=14, max_out=4, ncomp_max=4, gpu=True, p_empty=0.03):
         if rng.random() < 0.4:
             static_ps[str(pos)] = rng.randint(0, 9)
         static_kw = {"s": rng.randint(0, 9)} if rng.random() < 0.4 else {}
+        # a static value for a parameter that an edge also feeds (e.g. a default recorded by the builder): the edge wins
+        for e in inputs:
+            if rng.random() < 0.12:
+                if e[2] == "kw":
+                    static_kw[e[3]] = rng.randint(10, 19)
+                else:
+                    static_ps[str(e[3])] = rng.randint(10, 19)
         tasks.append(dict(name=name, nout=nout, comp=comp, inputs=inputs, static_ps=static_ps, static_kw=static_kw,
                           gpu=rng.random() < gpu_p, pad=rng.choice([0, 0, 0, 5, 200])))
     allds = [[t["name"], str(o)] for t in tasks for o in range(t["nout"])]
